@@ -268,7 +268,7 @@ def run_shard(spec):
     i = 0
     while i < spec["n"] and not sh.out_of_time():
         i += 1
-        js, feats = gen_schema(rng, bytes_defaults=0.0, logical=rng.random() < 0.4, max_nodes=14, max_depth=3)
+        js, feats = gen_schema(rng, bytes_defaults=0.4, union_default_any=True, logical=rng.random() < 0.4, max_nodes=14, max_depth=3)
         sh.feat(feats)
         v = sh.run_case(one_schema, sh, fa, rng, js, feats)
         handle(js, feats, v)
